@@ -767,10 +767,6 @@ func main() {
 		// first, so that a broken index structure is named as such before region histories trip over it
 		ok = btreePhase(r, rand.New(rand.NewSource(btSeed)))
 	}
-	if ok {
-		// readers against one write stream / against concurrent cache drops (see conc.go)
-		ok = concPhase(r, rand.New(rand.NewSource(concSeed)))
-	}
 	for i, prof := range profs {
 		if !ok {
 			break
@@ -783,6 +779,11 @@ func main() {
 			break // one witness per run is enough; the state of that history has diverged
 		}
 		r.Count("histories", 1)
+	}
+	if ok {
+		// readers against one write stream / against concurrent cache drops (see conc.go); after the
+		// sequential histories, whose witnesses are shrunk and more specific
+		ok = concPhase(r, rand.New(rand.NewSource(concSeed)))
 	}
 	r.Floor(int64(r.Pick(20000, 200000)))
 	pprof.StopCPUProfile()
